@@ -36,9 +36,9 @@ type ShardScript struct {
 
 // Replica scripts one StatefulSet for one cycle.
 type Replica struct {
-	ShardsErr   bool          `json:"shardsErr,omitempty"`
-	ScaleErrAt  []int         `json:"scaleErrAt,omitempty"` // indexes of ChangeScale calls (0,1) that fail
-	Shards      []ShardScript `json:"shards"`
+	ShardsErr  bool          `json:"shardsErr,omitempty"`
+	ScaleErrAt []int         `json:"scaleErrAt,omitempty"` // indexes of ChangeScale calls (0,1) that fail
+	Shards     []ShardScript `json:"shards"`
 }
 
 // Opt mirrors coordinator.Option.
